@@ -170,4 +170,48 @@ theorem blank_rt (cfg : Cfg) (v : Nat) (schema : Schema) (r : Bytes) :
   rw [if_pos c3]
   rfl
 
+
+/-! ### stability of the block decoder (a result is unchanged when bytes are appended) -/
+
+theorem header_stable (cfg : Cfg) (v : Nat) : Stable (Results.header cfg v) := by
+  unfold Results.header
+  refine Stable.bind (Stable.str _ _) fun name => Stable.bind (Stable.str _ _) fun ty => ?_
+  split
+  · exact Stable.bind Stable.bool fun c => Stable.bind (Stable.guard _ _) fun _ => Stable.pure _
+  · exact Stable.pure _
+
+theorem colBody_stable (cfg : Cfg) (ty : Ty) (rows : Nat) : Stable (colBody cfg ty rows) := by
+  unfold colBody
+  split
+  · exact Stable.pure _
+  · exact Stable.bind (decState_stable ty) fun _ => decCol_stable cfg ty rows
+
+theorem decCols_stable (cfg : Cfg) (v rows : Nat) : ∀ (sc : Schema), Stable (decCols cfg v rows sc) := by
+  intro sc
+  induction sc with
+  | nil => exact Stable.pure _
+  | cons t ts ih =>
+    obtain ⟨n, tn, ty⟩ := t
+    simp only [decCols]
+    exact Stable.bind (header_stable cfg v) fun h => Stable.bind (Stable.guard _ _) fun _ =>
+      Stable.bind (colBody_stable cfg ty rows) fun c => Stable.bind ih fun cs => Stable.pure _
+
+theorem afterHeader_stable (cfg : Cfg) (v : Nat) (sc : Schema) (h : Option (Int × Int × Int)) :
+    Stable (afterHeader cfg v sc h) := by
+  unfold afterHeader
+  split
+  · exact Stable.fail _
+  · split
+    · exact Stable.fail _
+    · split
+      · exact Stable.fail _
+      · refine Stable.bind (checkRows_stable cfg _) fun n => ?_
+        split
+        · exact Stable.pure _
+        · exact Stable.bind (Stable.guard _ _) fun _ => Stable.bind (decCols_stable cfg v n sc) fun cs => Stable.pure _
+
+theorem dec_stable (cfg : Cfg) (v : Nat) (sc : Schema) : Stable (dec cfg v sc) := by
+  unfold dec
+  exact Stable.bind (decodeFrom_stable cfg.strLim cfg.cap v blockHeader []) fun h => afterHeader_stable cfg v sc _
+
 end Model.Block
